@@ -45,16 +45,20 @@ func checkC01(c *Ctx) {
 	lockBalance(c, func(cl string) bool { return strings.HasPrefix(cl, "topics.") }, "topic-store")
 }
 
-// fanOut: the delivery loop of a publish.
+// fanOut: the delivery loop of a publish. The rule works on the supergraph of fn with its
+// static library helpers inlined (depth 2), so the loop or its body may live in a helper;
+// values are resolved to the root frame through the call-site arguments.
 func (c *Ctx) fanOut(fn *ssa.Function) {
 	name := fn.Name()
-	subsCalls := c.calls(fn, pkgTopics, "Manager", "Subscribers")
 	pos := c.P.Pos(fn.Pos())
-	if len(subsCalls) != 1 {
-		c.R.Bad(ruleP2, name+":fan-out:one-subscriber-lookup", pos, fmt.Sprintf("%d calls of Manager.Subscribers (expected 1)", len(subsCalls)))
+	g := paths.New(c.P, fn, 2)
+	scNodes := nodesMatching(g, nodeM(mMethod(pkgTopics, "Manager", "Subscribers")))
+	if len(scNodes) != 1 {
+		c.R.Bad(ruleP2, name+":fan-out:one-subscriber-lookup", pos, fmt.Sprintf("%d calls of Manager.Subscribers (expected 1)", len(scNodes)))
 		return
 	}
-	sc := subsCalls[0].(*ssa.Call)
+	scN := scNodes[0]
+	sc := scN.Instr.(*ssa.Call)
 	a := sc.Common().Args
 	var msg ssa.Value
 	for _, p := range fn.Params {
@@ -62,27 +66,29 @@ func (c *Ctx) fanOut(fn *ssa.Function) {
 			msg = p
 		}
 	}
+	isMsg := func(f *paths.Frame, v ssa.Value) bool { return msg != nil && frameValue(f, v) == msg }
 	// the lookup asks for the topic and QoS of the message being published
 	topicOK, qosOK := false, false
-	if tc, ok := ir.SeeThrough(a[1]).(*ssa.Call); ok && ir.IsMethod(tc.Common(), pkgMessage, "PublishMessage", "Topic") && ir.SeeThrough(tc.Common().Args[0]) == msg {
+	if tc, ok := frameValue(scN.F, a[1]).(*ssa.Call); ok && ir.IsMethod(tc.Common(), pkgMessage, "PublishMessage", "Topic") && isMsg(frameOfValue(g, scN.F, tc), tc.Common().Args[0]) {
 		topicOK = true
 	}
-	if qc, ok := ir.SeeThrough(a[2]).(*ssa.Call); ok && ir.IsMethod(qc.Common(), pkgMessage, "PublishMessage", "QoS") && ir.SeeThrough(qc.Common().Args[0]) == msg {
+	if qc, ok := frameValue(scN.F, a[2]).(*ssa.Call); ok && ir.IsMethod(qc.Common(), pkgMessage, "PublishMessage", "QoS") && isMsg(frameOfValue(g, scN.F, qc), qc.Common().Args[0]) {
 		qosOK = true
 	}
 	c.R.Check(topicOK && qosOK, ruleP2, name+":fan-out:lookup-uses-message-topic-and-qos", c.P.InstrPos(sc), "Subscribers(msg.Topic(), msg.QoS(), ...)", "the subscriber lookup is not made with the topic and QoS of the message being published: the wrong set of clients (or the wrong QoS) is selected")
-	subsPath := ir.PathOf(a[3])
-	qossPath := ir.PathOf(a[4])
-	// the loop ranges over the list the lookup filled
+	subsPath := framePath(scN.F, a[3])
+	qossPath := framePath(scN.F, a[4])
+	// the loop ranges over the list the lookup filled (in fn or in an inlined helper)
 	var loop *ir.Loop
-	for _, l := range ir.Loops(fn) {
-		subj := rangeSubject(l)
-		if subj == nil {
-			continue
-		}
-		if u, ok := subj.(*ssa.UnOp); ok {
-			if ir.SamePath(ir.PathOf(u.X), subsPath) {
-				loop = l
+	var lf *paths.Frame
+	for _, f := range framesOf(g) {
+		for _, l := range ir.Loops(f.Fn) {
+			subj := rangeSubject(l)
+			if subj == nil {
+				continue
+			}
+			if u, ok := subj.(*ssa.UnOp); ok && ir.SamePath(framePath(f, u.X), subsPath) {
+				loop, lf = l, f
 			}
 		}
 	}
@@ -93,7 +99,9 @@ func (c *Ctx) fanOut(fn *ssa.Function) {
 	var bad []string
 	// the list must be loaded after the lookup (not a stale copy)
 	subj := rangeSubject(loop).(*ssa.UnOp)
-	if !ir.Before(sc, subj) {
+	subjNode := paths.Node{F: lf, Instr: subj, Phase: -1}
+	if g.FindPath(g.Succ(scN), nil, func(n paths.Node) bool { return n == subjNode }) == nil ||
+		g.FindPath([]paths.Node{g.Entry()}, func(n paths.Node) bool { return n == scN }, func(n paths.Node) bool { return n == subjNode }) != nil {
 		bad = append(bad, "the list is read before the lookup fills it")
 	}
 	for _, e := range loop.ExitEdges() {
@@ -103,12 +111,13 @@ func (c *Ctx) fanOut(fn *ssa.Function) {
 	}
 	c.R.Check(len(bad) == 0, ruleP4, name+":fan-out:ranges-over-matched-subscribers", c.P.InstrPos(sc), "the loop ranges over the whole list filled by the lookup and is only left at its end", joinStr(bad, "; "))
 
-	g := paths.New(c.P, fn, 0)
-	body, end := iterationNodes(g, loop)
+	body, end := iterationNodesF(g, lf, loop)
+	// elemOf: v (a value of frame f, at or below the loop's frame) derives from the loop's element
+	elemOf := func(f *paths.Frame, v ssa.Value) bool { return frameElementOf(f, v, lf, loop) }
 	// the invocation: dynamic call of the element asserted to *OnPublishFunc with msg
 	isInvoke := func(n paths.Node) bool {
 		call, ok := n.Instr.(*ssa.Call)
-		if !ok || call.Common().IsInvoke() || call.Common().StaticCallee() != nil {
+		if !ok || n.Phase >= 0 || call.Common().IsInvoke() || call.Common().StaticCallee() != nil {
 			return false
 		}
 		if _, isB := call.Common().Value.(*ssa.Builtin); isB {
@@ -117,7 +126,7 @@ func (c *Ctx) fanOut(fn *ssa.Function) {
 		if namedName(call.Common().Value.Type()) != "OnPublishFunc" {
 			return false
 		}
-		return elementOf(call.Common().Value, loop)
+		return elemOf(n.F, call.Common().Value)
 	}
 	inv := nodesMatching(g, isInvoke)
 	if len(inv) == 0 {
@@ -129,7 +138,7 @@ func (c *Ctx) fanOut(fn *ssa.Function) {
 	g.PruneEdge = func(f *paths.Frame, iff *ssa.If, idx int) bool {
 		if b, ok := iff.Cond.(*ssa.BinOp); ok {
 			for _, s := range []ssa.Value{b.X, b.Y} {
-				if elementOf(s, loop) {
+				if elemOf(f, s) {
 					if k, ok2 := otherOperand(b, s).(*ssa.Const); ok2 && k.IsNil() {
 						// prune the "is nil" edge
 						isNilEdge := (b.Op.String() == "==") == (idx == 0)
@@ -155,19 +164,24 @@ func (c *Ctx) fanOut(fn *ssa.Function) {
 	// the message passed is the published one
 	for _, n := range inv {
 		call := n.Instr.(*ssa.Call)
-		okArg := len(call.Common().Args) == 1 && ir.SeeThrough(call.Common().Args[0]) == msg
+		okArg := len(call.Common().Args) == 1 && isMsg(n.F, call.Common().Args[0])
 		c.R.Check(okArg, ruleP4, name+":fan-out:delivers-the-published-message", c.P.InstrPos(call), "the callback receives the message being published", "the callback does not receive the message being published")
 	}
 	// QoS: SetQoS(qoss[i]) with the same index, on every path before the invocation
 	isSetQos := func(n paths.Node) bool {
 		call, ok := n.Instr.(*ssa.Call)
-		if !ok || !ir.IsMethod(call.Common(), pkgMessage, "PublishMessage", "SetQoS") {
+		if !ok || n.Phase >= 0 || !ir.IsMethod(call.Common(), pkgMessage, "PublishMessage", "SetQoS") {
 			return false
 		}
-		if ir.SeeThrough(call.Common().Args[0]) != msg {
+		if !isMsg(n.F, call.Common().Args[0]) {
 			return false
 		}
-		u, ok := ir.SeeThrough(call.Common().Args[1]).(*ssa.UnOp)
+		// the argument, resolved up to the loop's frame, is qoss[i]
+		v, vf := frameValueIn(n.F, call.Common().Args[1], lf)
+		if vf != lf {
+			return false
+		}
+		u, ok := v.(*ssa.UnOp)
 		if !ok {
 			return false
 		}
@@ -176,13 +190,14 @@ func (c *Ctx) fanOut(fn *ssa.Function) {
 			return false
 		}
 		su, ok := ir.SeeThrough(ia.X).(*ssa.UnOp)
-		if !ok || !ir.SamePath(ir.PathOf(su.X), qossPath) {
+		if !ok || !ir.SamePath(framePath(lf, su.X), qossPath) {
 			return false
 		}
 		return sameIndexAsElement(ia.Index, loop)
 	}
 	var q []paths.Node
 	for _, iv := range inv {
+		iv := iv
 		if x := g.FindPath(body, isSetQos, func(n paths.Node) bool { return n == iv }); x != nil {
 			q = x
 		}
@@ -194,8 +209,11 @@ func (c *Ctx) fanOut(fn *ssa.Function) {
 		c.R.Ok(ruleP4, name+":fan-out:per-subscriber-qos", c.P.InstrPos(inv[0].Instr), "msg.SetQoS(qoss[i]) with the subscriber's own index precedes every invocation")
 	}
 	// retain (C08) happens before the fan-out mutates the message
-	for _, rc := range c.calls(fn, pkgTopics, "Manager", "Retain") {
-		c.R.Check(!ir.CanReach(sc, rc) && ir.CanReach(rc, sc), ruleP5, name+":retain-before-fan-out", c.P.InstrPos(rc), "the retained store is updated before the fan-out rewrites QoS/retain flag of the shared message", "the retained store is updated after the delivery loop, which rewrites the shared message's QoS (and retain flag): the stored message carries the QoS of the last subscriber")
+	for _, rn := range nodesMatching(g, nodeM(mMethod(pkgTopics, "Manager", "Retain"))) {
+		rn := rn
+		after := g.FindPath(g.Succ(scN), nil, func(n paths.Node) bool { return n == rn }) != nil
+		before := g.FindPath(g.Succ(rn), nil, func(n paths.Node) bool { return n == scN }) != nil
+		c.R.Check(!after && before, ruleP5, name+":retain-before-fan-out", c.P.InstrPos(rn.Instr), "the retained store is updated before the fan-out rewrites QoS/retain flag of the shared message", "the retained store is updated after the delivery loop, which rewrites the shared message's QoS (and retain flag): the stored message carries the QoS of the last subscriber")
 	}
 }
 
